@@ -454,6 +454,8 @@ package scipipe
 //@ func (*Task).Execute(t)
 //@   props C01 C02 C03 C05 C06 C09
 //@   requires wf: wfTask(t)
+//@   onspawn modifies execSpawned
+//@   onspawn ensures counted: execSpawned == old(execSpawned) + 1
 //@   modifies *
 //@   effects no-inplace-create[C01]: noAuditAlias(t) ==> forall p string :: effCreated[p] && !old(effCreated)[p] ==> !isFinal(t, p)
 //@   effects rename-only-from-temp-after-success[C01,C09]: forall a string, b string :: newRename(a, b) && isFinal(t, b) ==> hasPrefix(a, tmpDirOf(t)) && cmdSucceeded(t) && old(!anyOutExists(t))
@@ -1086,7 +1088,7 @@ package scipipe
 //@   props C04 C08
 //@   requires wf: wfOutPort(pt)
 //@   requires valid: validIP(ip)
-//@   modifies chan, outN, outAt
+//@   modifies chansend, outN, outAt
 //@   ghost set outAt = update(outAt, pt, update(outAt[pt], outN[pt], ip))
 //@   ghost set outN = update(outN, pt, outN[pt] + 1)
 //@   ensures each-remote-exactly-once[C04]: forall r string :: r in pt.RemotePorts ==> chanSentN(pt.RemotePorts[r].Chan) == old(chanSentN(pt.RemotePorts[r].Chan)) + 1 && chanSentAt(pt.RemotePorts[r].Chan, old(chanSentN(pt.RemotePorts[r].Chan))) == ip
@@ -1102,7 +1104,7 @@ package scipipe
 
 //@ func (*InPort).CloseConnection(pt, rptName)
 //@   props C04 C05
-//@   modifies pt.RemotePorts[*], chan(pt.Chan), locked, closeCalls
+//@   modifies pt.RemotePorts[*], chanclose, locked, closeCalls
 //@   ghost set closeCalls = update(closeCalls, pt, closeCalls[pt] + 1)
 //@   ensures removed: !(rptName in pt.RemotePorts)
 //@   ensures others: forall k string :: k != rptName ==> ((k in pt.RemotePorts) <==> old(k in pt.RemotePorts)) && pt.RemotePorts[k] == old(pt.RemotePorts[k])
@@ -1118,11 +1120,13 @@ package scipipe
 //@   props C04 C05
 //@   requires wf: wfOutPort(pt) && wfPortKeys(pt) && pt.process != nil
 //@   requires in-ports-distinct-maps: forall r string :: r in pt.RemotePorts ==> pt.RemotePorts[r].RemotePorts != nil
-//@   modifies pt.RemotePorts[*], map[string]*OutPort, chan, locked, closeCalls
+//@   modifies pt.RemotePorts[*], map[string]*OutPort, chanclose, locked, closeCalls
 //@   ensures all-disconnected: forall r string :: !(r in pt.RemotePorts)
 //@   ensures each-remote-notified-once[C04,C05]: forall r string :: old(r in pt.RemotePorts) ==> closeCalls[old(pt.RemotePorts[r])] == old(closeCalls)[old(pt.RemotePorts[r])] + 1
 //@   ensures removed-from-remote[C04]: forall r string :: old(r in pt.RemotePorts) ==> !((procName(pt.process) + "." + pt.name) in old(pt.RemotePorts[r]).RemotePorts)
 //@   ensures nothing-sent: forall c chan *FileIP :: !fresh(c) ==> chanSentN(c) == old(chanSentN(c))
+//@   ensures only-remote-maps-change: forall m map[string]*OutPort :: !(exists r string :: old(r in pt.RemotePorts) && old(pt.RemotePorts[r]).RemotePorts == m) ==> dom(m) == old(dom(m)) && vals(m) == old(vals(m))
+//@   loop 0 invariant only-remote-maps-change: forall m map[string]*OutPort :: !(exists r string :: old(r in pt.RemotePorts) && old(pt.RemotePorts[r]).RemotePorts == m) ==> dom(m) == old(dom(m)) && vals(m) == old(vals(m))
 //@   loop 0 invariant vis: forall r string :: $visited[r] ==> old(r in pt.RemotePorts)
 //@   loop 0 invariant gone: forall r string :: $visited[r] ==> !(r in pt.RemotePorts)
 //@   loop 0 invariant kept: forall r string :: !$visited[r] ==> ((r in pt.RemotePorts) <==> old(r in pt.RemotePorts)) && pt.RemotePorts[r] == old(pt.RemotePorts[r])
@@ -1164,7 +1168,7 @@ package scipipe
 
 //@ func (*InParamPort).CloseConnection(pip, popName)
 //@   props C04 C05
-//@   modifies pip.RemotePorts[*], chan(pip.Chan), locked, pcloseCalls
+//@   modifies pip.RemotePorts[*], chanclose, locked, pcloseCalls
 //@   ghost set pcloseCalls = update(pcloseCalls, pip, pcloseCalls[pip] + 1)
 //@   ensures removed: !(popName in pip.RemotePorts)
 //@   ensures others: forall k string :: k != popName ==> ((k in pip.RemotePorts) <==> old(k in pip.RemotePorts)) && pip.RemotePorts[k] == old(pip.RemotePorts[k])
@@ -1179,7 +1183,7 @@ package scipipe
 //@ func (*OutParamPort).Close(pop)
 //@   props C04 C05
 //@   requires wf: wfOutParamPort(pop) && wfParamPortKeys(pop) && pop.process != nil
-//@   modifies pop.RemotePorts[*], map[string]*OutParamPort, chan, locked, pcloseCalls
+//@   modifies pop.RemotePorts[*], map[string]*OutParamPort, chanclose, locked, pcloseCalls
 //@   ensures all-disconnected: forall r string :: !(r in pop.RemotePorts)
 //@   ensures each-remote-notified-once[C04,C05]: forall r string :: old(r in pop.RemotePorts) ==> pcloseCalls[old(pop.RemotePorts[r])] == old(pcloseCalls)[old(pop.RemotePorts[r])] + 1
 //@   ensures nothing-sent: forall c chan string :: !fresh(c) ==> chanSentN(c) == old(chanSentN(c))
@@ -1366,6 +1370,9 @@ package scipipe
 //@   requires wf: wfProcess(p)
 //@   modifies fresh
 //@   atmakechan owner: taskChanOwner($ch) == p
+//@   modifies curTasks
+//@   ghost set curTasks = update(curTasks, p, ch)
+//@   ensures registered: curTasks == update(old(curTasks), p, ch)
 //@   ensures fresh-channel: ch != nil && fresh(ch) && chanCap(ch) == 0 && taskChanOwner(ch) == p && chanRecvN(ch) == 0
 
 //@ define noJoin(p *Process) bool = forall k string :: !joinPort(p.PortInfo, k)
@@ -1390,3 +1397,95 @@ package scipipe
 
 // at exit: every port delivered n items to tasks; the round that found a port closed read each port at most once more
 //@ define portsAdvancedAtExit(p *Process, n int) bool = n >= 0 && (forall i string :: i in p.inPorts ==> chanRecvN(p.inPorts[i].Chan) >= old(chanRecvN(p.inPorts[i].Chan)) + n && chanRecvN(p.inPorts[i].Chan) <= old(chanRecvN(p.inPorts[i].Chan)) + n + 1) && (forall i string :: i in p.inParamPorts ==> chanRecvN(p.inParamPorts[i].Chan) >= old(chanRecvN(p.inParamPorts[i].Chan)) + n && chanRecvN(p.inParamPorts[i].Chan) <= old(chanRecvN(p.inParamPorts[i].Chan)) + n + 1)
+
+// ---------------------------------------------------------------------------
+// process.go: the scheduling loop (C08 order, C04 forward exactly once, C05 exit only when all is done,
+//             C07 oversize rejected, C09 forward only after Done, C17 FIFO lifecycle)
+// ---------------------------------------------------------------------------
+
+//@ ghost var curTasks arr[ref]ref
+//@ ghost var execSpawned int
+//@ ghost var effShell set[string]
+
+//@ func (taskQueue).NextTaskDone(tq) (res)
+//@   props C08
+//@   ensures only-the-oldest[C08]: (len(tq) > 0 ==> res == tq[0].Done) && (len(tq) == 0 ==> res == nil)
+
+//@ func (*Process).Out(p, portName) (res)
+//@   props C04
+//@   ensures named: portName != "" ==> portName in p.outPorts && res == p.outPorts[portName]
+
+//@ func (*FileIP).FifoFileExists(ip) (res)
+//@   props C03 C17
+//@   modifies locked
+//@   ensures def: res <==> statOK(fsEpoch, ip.path + ".fifo")
+
+//@ extern (*os/exec.Cmd).Output(c) (out, err)
+//@   modifies effShell, fsEpoch
+//@   ensures ran: effShell == setAdd(old(effShell), cmdArg(c, 1))
+
+//@ func (*FileIP).CreateFifo(ip)
+//@   props C17
+//@   modifies effMkdir, effShell, fsEpoch, locked
+//@   ensures fifo-exists-or-made[C17]: effShell["mkfifo " + ip.path + ".fifo"] || old(effShell)["mkfifo " + ip.path + ".fifo"] || (exists e int :: statOK(e, ip.path + ".fifo"))
+//@   ensures no-regular-file[C17]: effCreated == old(effCreated) && effRenamed == old(effRenamed)
+
+// The Go statement `go t.Execute()`: one more task execution has been started.
+
+//@ define wfRunPorts(p *Process) bool = wfOutPortsToClose(p.BaseProcess) && !("" in p.PathFuncs) && (forall o string :: o in p.PathFuncs ==> o in p.outPorts && p.outPorts[o] != nil && wfOutPort(p.outPorts[o])) && (forall o1 string, o2 string :: o1 in p.PathFuncs && o2 in p.PathFuncs && o1 != o2 ==> p.outPorts[o1] != p.outPorts[o2])
+//@ define streamPort(p *Process, o string) bool = o in p.PortInfo && p.PortInfo[o].doStream
+// T(x): the x-th task received from the process's task channel (prophecy sequence of the single receiver)
+//@ define taskAt(p *Process, x int) *Task = chanInAt(curTasks[p], x)
+//@ define nRecv(p *Process) int = chanRecvN(curTasks[p])
+
+//@ func (*Process).Run(p)
+//@   props C04 C05 C07 C08 C09 C17
+//@   requires wf: wfProcess(p) && wfRunPorts(p)
+//@   modifies *
+//@   atcall (*Process).createTasks oversize-rejected-before-any-task[C07]: p.CoresPerTask <= chanCap(p.workflow.concurrentTasks) && execSpawned == old(execSpawned)
+//@   atgo (*Task).Execute the-task-just-received[C04]: $arg0 == t && taskOK(t) && t.Process == p
+//@   atgo (*Task).Execute fifos-ready-before-start[C17]: forall o string :: o in t.OutIPs && t.OutIPs[o].doStream ==> $visited1[o]
+//@   atcall (*FileIP).CreateFifo refuse-existing-fifo[C03,C17]: !statOK(fsEpoch, oip.path + ".fifo")
+//@   atcall (*BaseProcess).CloseOutPorts closes-only-when-all-done[C05]: tasks == nil && len(startedTasks) == 0
+//@   loop 0 invariant wf: wfProcess(p) && wfRunPorts(p) && curTasks[p] != nil && taskChanOwner(curTasks[p]) == p
+//@   loop 0 invariant chan: tasks == nil || tasks == curTasks[p]
+//@   loop 0 invariant closed-seen: tasks == nil ==> nRecv(p) == chanTotal(curTasks[p])
+//@   loop 0 invariant queue-len: 0 <= len(startedTasks) && len(startedTasks) <= nRecv(p)
+//@   loop 0 invariant queue-is-fifo[C08]: forall j int :: 0 <= j && j < len(startedTasks) ==> startedTasks[j] == taskAt(p, nRecv(p) - len(startedTasks) + j)
+//@   loop 0 invariant queue-ok: forall j int :: 0 <= j && j < len(startedTasks) ==> taskOK(startedTasks[j]) && startedTasks[j].Process == p
+//@   loop 0 invariant one-execute-per-task[C04]: execSpawned == old(execSpawned) + nRecv(p)
+//@   loop 0 invariant forwarded-in-arrival-order[C04,C08]: forall o string :: o in p.PathFuncs && !streamPort(p, o) ==> outN[p.outPorts[o]] == old(outN)[p.outPorts[o]] + nRecv(p) - len(startedTasks) && (forall x int :: 0 <= x && x < nRecv(p) - len(startedTasks) ==> outAt[p.outPorts[o]][old(outN)[p.outPorts[o]] + x] == taskAt(p, x).OutIPs[o])
+//@   loop 0 invariant streamed-at-start[C17]: forall o string :: o in p.PathFuncs && streamPort(p, o) ==> outN[p.outPorts[o]] == old(outN)[p.outPorts[o]] + nRecv(p)
+//@   loop 1 invariant wf: wfProcess(p) && wfRunPorts(p) && curTasks[p] != nil && taskChanOwner(curTasks[p]) == p && tasks == curTasks[p] && taskOK(t) && t.Process == p && t == taskAt(p, nRecv(p) - 1) && nRecv(p) >= 1
+//@   loop 1 invariant vis: forall o string :: $visited[o] ==> o in t.OutIPs
+//@   loop 1 invariant queue-len: 0 <= len(startedTasks) && len(startedTasks) <= nRecv(p) - 1
+//@   loop 1 invariant queue-is-fifo: forall j int :: 0 <= j && j < len(startedTasks) ==> startedTasks[j] == taskAt(p, nRecv(p) - 1 - len(startedTasks) + j)
+//@   loop 1 invariant queue-ok: forall j int :: 0 <= j && j < len(startedTasks) ==> taskOK(startedTasks[j]) && startedTasks[j].Process == p
+//@   loop 1 invariant one-execute-per-task: execSpawned == old(execSpawned) + nRecv(p) - 1
+//@   loop 1 invariant forwarded: forall o string :: o in p.PathFuncs && !streamPort(p, o) ==> outN[p.outPorts[o]] == old(outN)[p.outPorts[o]] + nRecv(p) - 1 - len(startedTasks) && (forall x int :: 0 <= x && x < nRecv(p) - 1 - len(startedTasks) ==> outAt[p.outPorts[o]][old(outN)[p.outPorts[o]] + x] == taskAt(p, x).OutIPs[o])
+//@   loop 1 invariant streamed: forall o string :: o in p.PathFuncs && streamPort(p, o) ==> outN[p.outPorts[o]] == old(outN)[p.outPorts[o]] + nRecv(p) - ite($visited[o], 0, 1)
+//@   loop 2 invariant wf: wfProcess(p) && wfRunPorts(p) && curTasks[p] != nil && taskChanOwner(curTasks[p]) == p && (tasks == nil || tasks == curTasks[p]) && taskOK(nextTask) && nextTask.Process == p && nextTask == taskAt(p, nRecv(p) - len(startedTasks) - 1)
+//@   loop 2 invariant closed-seen: tasks == nil ==> nRecv(p) == chanTotal(curTasks[p])
+//@   loop 2 invariant vis: forall o string :: $visited[o] ==> o in nextTask.OutIPs
+//@   loop 2 invariant queue-len: 0 <= len(startedTasks) && len(startedTasks) <= nRecv(p) - 1
+//@   loop 2 invariant queue-is-fifo: forall j int :: 0 <= j && j < len(startedTasks) ==> startedTasks[j] == taskAt(p, nRecv(p) - len(startedTasks) + j)
+//@   loop 2 invariant queue-ok: forall j int :: 0 <= j && j < len(startedTasks) ==> taskOK(startedTasks[j]) && startedTasks[j].Process == p
+//@   loop 2 invariant one-execute-per-task: execSpawned == old(execSpawned) + nRecv(p)
+//@   loop 2 invariant forwarded: forall o string :: o in p.PathFuncs && !streamPort(p, o) ==> outN[p.outPorts[o]] == old(outN)[p.outPorts[o]] + nRecv(p) - len(startedTasks) - 1 + ite($visited[o], 1, 0) && (forall x int :: 0 <= x && x < nRecv(p) - len(startedTasks) - 1 + ite($visited[o], 1, 0) ==> outAt[p.outPorts[o]][old(outN)[p.outPorts[o]] + x] == taskAt(p, x).OutIPs[o])
+//@   loop 2 invariant streamed: forall o string :: o in p.PathFuncs && streamPort(p, o) ==> outN[p.outPorts[o]] == old(outN)[p.outPorts[o]] + nRecv(p)
+//@   ensures every-task-forwarded[C04,C05]: forall o string :: o in p.PathFuncs && !streamPort(p, o) ==> outN[p.outPorts[o]] == old(outN)[p.outPorts[o]] + chanTotal(curTasks[p])
+//@   ensures one-execute-per-task[C04]: execSpawned == old(execSpawned) + chanTotal(curTasks[p])
+
+//@ define wfOutPortsToClose(p *BaseProcess) bool = p.outPorts != nil && (forall o1 string, o2 string :: o1 in p.outPorts && o2 in p.outPorts && o1 != o2 ==> p.outPorts[o1] != p.outPorts[o2] && p.outPorts[o1].RemotePorts != p.outPorts[o2].RemotePorts) && (forall o string :: o in p.outPorts ==> p.outPorts[o] != nil && wfOutPort(p.outPorts[o]) && wfPortKeys(p.outPorts[o]) && p.outPorts[o].process != nil && (forall r string :: r in p.outPorts[o].RemotePorts ==> p.outPorts[o].RemotePorts[r].RemotePorts != nil && p.outPorts[o].RemotePorts[r].RemotePorts != p.outPorts))
+//@ func (*BaseProcess).CloseOutPorts(p)
+//@   props C04 C05
+//@   requires wf: wfOutPortsToClose(p)
+//@   modifies map[string]*InPort, map[string]*OutPort, chanclose, locked, closeCalls
+//@   ensures nothing-sent: outN == old(outN) && outAt == old(outAt)
+//@   ensures all-closed[C05]: forall o string, r string :: o in p.outPorts ==> !(r in p.outPorts[o].RemotePorts)
+//@   ensures own-ports-kept: forall o string :: ((o in p.outPorts) <==> old(o in p.outPorts)) && p.outPorts[o] == old(p.outPorts[o])
+//@   loop 0 invariant own-ports-kept: forall o string :: ((o in p.outPorts) <==> old(o in p.outPorts)) && p.outPorts[o] == old(p.outPorts[o])
+//@   loop 0 invariant vis: forall o string :: $visited[o] ==> o in p.outPorts
+//@   loop 0 invariant closed: forall o string, r string :: $visited[o] ==> !(r in p.outPorts[o].RemotePorts)
+//@   loop 0 invariant rest-wf: forall o string :: o in p.outPorts && !$visited[o] ==> p.outPorts[o] != nil && wfOutPort(p.outPorts[o]) && wfPortKeys(p.outPorts[o]) && p.outPorts[o].process != nil && (forall r string :: r in p.outPorts[o].RemotePorts ==> p.outPorts[o].RemotePorts[r].RemotePorts != nil && p.outPorts[o].RemotePorts[r].RemotePorts != p.outPorts)
+//@   loop 0 invariant distinct: forall o1 string, o2 string :: o1 in p.outPorts && o2 in p.outPorts && o1 != o2 ==> p.outPorts[o1] != p.outPorts[o2] && p.outPorts[o1].RemotePorts != p.outPorts[o2].RemotePorts
